@@ -170,7 +170,7 @@ def invoke(bct, case, seed, ci0, hierarchy=False, t=6.0):
     f = getattr(bct, r)
     if r == 'community_louvain':
         o = case['opt']
-        B = o if o != 'custom' else ([[float(Fr(x)) for x in row] for row in case['B']] if not case.get('B_ndarray') else np.array([[float(Fr(x)) for x in row] for row in case['B']]))
+        B = o if o != 'custom' else [[float(Fr(x)) for x in row] for row in case['B']]
         st, out = call(f, A, gamma=g, ci=ci, B=B, seed=rec, t=t)
     elif r in ('modularity_louvain_und', 'modularity_louvain_dir'):
         st, out = call(f, A, gamma=g, hierarchy=hierarchy, seed=rec, t=t)
@@ -201,15 +201,10 @@ def _levels(out, hierarchy):
 
 def cond_of(case, level=None, nlevels=None):
     c = {'routine': case['routine'], 'asymmetric': not is_sym(case['W']), 'opt': case.get('opt')}
-    if case['routine'] == 'community_louvain':
-        # objectives whose matrix community_louvain does not symmetrise, on directed input
-        c['unsymmetrised_objective'] = bool(c['asymmetric'] and case.get('opt') in ('potts', 'negative_sym', 'negative_asym'))
     if level is not None:
         c['level_ge2'] = level >= 2
     if nlevels is not None:
         c['levels_ge2'] = nlevels >= 2
-    if case.get('B_ndarray'):
-        c['B_ndarray'] = True
     return c
 
 
@@ -484,9 +479,24 @@ def to_list(A):
     return [[int(x) for x in r] for r in np.asarray(A)]
 
 
+# recorded inputs of the open known findings (D6): replayed on the real code on every run
+WITNESSES = [
+    {'routine': 'modularity_louvain_dir', 'W': [[0, 1, 0], [0, 0, 0], [1, 1, 0]], 'gamma': '5/4', 'opt': None, 'ci0': None, 'seed': 628871178},
+    {'routine': 'modularity_louvain_dir', 'W': [[0, 0, 1], [3, 0, 3], [0, 3, 0]], 'gamma': '3/4', 'opt': None, 'ci0': None, 'seed': 1607589865},
+    {'routine': 'modularity_louvain_dir', 'W': [[0, 1, 0], [1, 0, 0], [1, 0, 0]], 'gamma': '5/4', 'opt': None, 'ci0': None, 'seed': 105741908},
+    {'routine': 'modularity_louvain_dir', 'W': [[0, 0, 0, 1, 0, 0, 0, 0], [0, 0, 1, 0, 0, 0, 0, 0], [1, 0, 0, 0, 0, 0, 0, 0], [0, 0, 0, 0, 0, 0, 1, 0],
+                                                 [1, 1, 0, 0, 0, 0, 1, 0], [0, 1, 0, 0, 0, 0, 0, 0], [0, 0, 0, 0, 0, 1, 0, 0], [0, 0, 0, 0, 0, 0, 0, 0]],
+     'gamma': '5/4', 'opt': None, 'ci0': None, 'seed': 879105211},
+    # inputs of the repaired defects M1 (finetune_dir km_o/km_i swap) and M2 (unsymmetrised objectives): must stay clean
+    {'routine': 'modularity_finetune_dir', 'W': [[0, 0, 3, 3], [0, 0, 0, 1], [1, 0, 0, 0], [0, 0, 0, 0]], 'gamma': '1', 'opt': None, 'ci0': [3, 3, 3, 1], 'seed': 0},
+    {'routine': 'community_louvain', 'W': [[0, -1, -1, 0], [-1, 0, -1, -1], [1, 1, 0, 1], [1, -1, 1, 0]], 'gamma': '3/4', 'opt': 'negative_asym', 'ci0': [0, 0, 0, 0], 'seed': 2072789289},
+    {'routine': 'community_louvain', 'W': [[0, 0, 1, 0], [1, 0, 0, 0], [1, 1, 0, 1], [1, 1, 1, 0]], 'gamma': '5/4', 'opt': 'potts', 'ci0': [1, 1, 1, 1], 'seed': 945980373},
+]
+
+
 def gen_cases(rs, tier, routines=None):
     big = tier == 'thorough'
-    cases = []
+    cases = [dict(w) for w in WITNESSES if not routines or w['routine'] in routines]
     rnd_seed = lambda: int(rs.randint(2 ** 31))
     gam = lambda: GAMMAS[rs.randint(3)]
 
@@ -544,7 +554,7 @@ def gen_cases(rs, tier, routines=None):
 
     for (r, opt) in variants:
         # (a) every set partition of a few small graphs as the start (routines that take one); singletons otherwise
-        nsmall = (6 if not big else 40)
+        nsmall = (6 if not big else 120)
         for _ in range(nsmall):
             n = int(rs.choice([3, 4, 4, 5, 5]))
             A = graph_for(r, n, opt)
@@ -561,7 +571,7 @@ def gen_cases(rs, tier, routines=None):
                 for g in GAMMAS:
                     add(r, A, opt, None, gamma=g, **extra)
         # (b) random larger graphs, random starts
-        nrand = (60 if not big else 700)
+        nrand = (60 if not big else 2500)
         for _ in range(nrand):
             n = int(rs.randint(4, 13))
             A = graph_for(r, n, opt)
@@ -589,12 +599,8 @@ def gen_cases(rs, tier, routines=None):
                 add(r, A, opt, ci0, gamma=('1' if r == 'modularity_und_sign' else None))
                 if r != 'modularity_und_sign' and rs.rand() < .5:
                     add(r, A, opt, None)
-    # (d) custom objective passed as an ndarray (documented as array-like)
-    if not routines or 'community_louvain' in routines:
-        for _ in range(3):
-            n = 5; A = g_und(rs, n, .6, 3)
-            if A.sum() > 0:
-                add('community_louvain', A, 'custom', None, B=custom_B(n), B_ndarray=True)
+    # (custom objective matrices are passed as nested lists: as an ndarray the routine raises ValueError under
+    #  NumPy >= 1.25 - `B in ('negative_sym', ...)` on an array - which is outside C02/C07: they name the built-in objectives)
     # (e) malformed stream: asymmetric input to the _und routines (may spin: watchdog), outcome: no claim
     for r in ('modularity_finetune_und', 'modularity_louvain_und', 'modularity_finetune_und_sign'):
         if routines and r not in routines:
@@ -711,9 +717,9 @@ def run_check(ck, preds):
                         bad = 'relabel'
                     elif not close(q, Fr(d['qcode'])):
                         bad = 'coded closed form vs reported q'
-                    elif Fr(d['qdef']) != Fr(d['qcode']) and (is_sym(c['W']) or kind_of(c) == 'dir' or c.get('opt') in ('modularity', 'custom')):
+                    elif Fr(d['qdef']) != Fr(d['qcode']) and (is_sym(c['W']) or kind_of(c) in ('dir', 'obj')):
                         bad = 'closed form vs definition'
-                    elif r.get('Qs') and r['Qs'][h] is not None and Fr(r['Qs'][h]) != Fr(d['qdef']) and (is_sym(c['W']) or kind_of(c) == 'dir' or c.get('opt') in ('modularity', 'custom')):
+                    elif r.get('Qs') and r['Qs'][h] is not None and Fr(r['Qs'][h]) != Fr(d['qdef']) and (is_sym(c['W']) or kind_of(c) in ('dir', 'obj')):
                         bad = 'model definition vs python oracle'
                 if bad:
                     nd += 1
@@ -721,11 +727,14 @@ def run_check(ck, preds):
                         ck.corr_break('Modularity model q (%s) vs bct.%s' % (bad, c['routine']), {'case': c, 'level': h, 'model': o[:300], 'impl': [ci, q]})
             ck.count('corr_q_cases', len(qo)); ck.count('corr_q_disagreements', nd)
             nr = 0; agree = 0
+            tie_ok, tie_div, tie_ex = {}, {}, {}
             for n_, o in zip(ridx, ro):
                 c, r = cases[n_], results[n_]
                 ml, d = parse_levels(o)
                 if ml is None and d.get('error') in ('out-of-draws', 'bad-draw') and int(d.get('ties', '0')) > 0:
                     ck.count('replay_tie_divergence_other_q')   # an exact tie broken differently made the model sweep longer than bct
+                    tie_div[c['routine']] = tie_div.get(c['routine'], 0) + 1
+                    tie_ex.setdefault(c['routine'], {'case': c, 'draws': r['draws'], 'model': o[:300], 'impl': r['levels']})
                     continue
                 if ml is None:
                     nr += 1
@@ -742,15 +751,25 @@ def run_check(ck, preds):
                     agree += 1
                     if int(d.get('ties', '0')) > 0:
                         ck.count('replay_agree_with_exact_ties')
+                        tie_ok[c['routine']] = tie_ok.get(c['routine'], 0) + 1
                     continue
                 if int(d.get('ties', '0')) > 0:
                     # an exact tie was broken somewhere: floats may legitimately pick another maximiser; compare by value
                     same_q = r['levels'] and ml and close(r['levels'][-1][1], ml[-1][1])
                     ck.count('replay_tie_divergence_' + ('same_q' if same_q else 'other_q'))
+                    tie_div[c['routine']] = tie_div.get(c['routine'], 0) + 1
+                    tie_ex.setdefault(c['routine'], {'case': c, 'draws': r['draws'], 'model': o[:300], 'impl': r['levels']})
                     continue
                 nr += 1
                 if nr <= 5:
                     ck.corr_break('Modularity replay (%s) vs bct.%s' % (verdict, c['routine']), {'case': c, 'draws': r['draws'], 'model': o[:400], 'impl': r['levels'], 'plain': r.get('plain')})
+            # a float tie may legitimately be broken differently once in a while (different expressions, same exact value);
+            # a *systematic* disagreement on tied cases means the tie-breaking rule itself (first maximum) no longer matches
+            for rt, dv in sorted(tie_div.items()):
+                tot = dv + tie_ok.get(rt, 0)
+                if dv >= 6 and dv > 0.15 * tot:
+                    nr += 1
+                    ck.corr_break('Modularity replay: tie-breaking of bct.%s disagrees with first-maximum in %d of %d runs with exact ties' % (rt, dv, tot), tie_ex[rt])
             ck.cov['traces_validated_against_impl'] = agree
             ck.count('corr_replay_cases', len(ro)); ck.count('corr_replay_disagreements', nr)
         except DriverError as e:
